@@ -38,6 +38,7 @@ func runC01(c *Ctx) {
 	ruleForward(c, p)
 	ruleInferTables(c, p, "C01")
 	ruleOffsetsAppend(c, p)
+	ruleResetBefore(c, p, "C01.reset")
 	c.R.Assumptions = append(c.R.Assumptions,
 		"decided: append-only encoders, agreement of encoder / vectored writer / decoder on sequence and width of what is on the wire in every build configuration and revision, LowCardinality key width and per-width key columns, state/prepare forwarding of wrappers; not decided: equality of decoded and encoded values for all inputs")
 }
@@ -70,7 +71,9 @@ func ruleColumnShape(c *Ctx, p *core.Program) {
 				continue
 			}
 			ed, dd := ea.determinize(), da.determinize()
-			ed.final[0], dd.final[0] = true, true // zero rows
+			if pair[0] == "EncodeColumn" {
+				ed.final[0], dd.final[0] = true, true // zero rows: early return = zero-length move
+			}
 			if ok, w := contained(ed, dd); !ok {
 				c.R.Bad(rule, key, cfg, p.Pos(enc.Pos()), sprintf("%s can emit [%s], which no success path of %s consumes", pair[0], strings.Join(w, " "), pair[1]))
 				continue
